@@ -425,6 +425,27 @@ func genC04HaltNoDeposit(r *hlib.Rng) In {
 	return in
 }
 
+// directed C04 history: the dropped fork REPEATS surviving deposits so that a whole subtree repeats (deposits 0,1 = (a, b) survive,
+// deposits 2,3 = (a, b) and a further one are dropped): the tree nodes of the dropped roots are partly the nodes of surviving roots.
+// Every proof of every surviving root must still verify after the reorg, and the new fork must be followed.
+func genC04RepeatedSubtree(r *hlib.Rng) In {
+	in := In{Prop: "c04", Proofs: "all"}
+	a, b := genBridge0(r, 0, 0, 0), genBridge0(r, 0, 0, 0)
+	mk := func(num uint64, dc uint32, evs ...Ev) Op {
+		op := Op{K: "block", Num: num}
+		for i, e := range evs {
+			e.Pos, e.Tag, e.DC = uint64(2*i+1), uint64(num*10)+uint64(i), dc+uint32(i)
+			op.Events = append(op.Events, e)
+		}
+		return op
+	}
+	in.Ops = append(in.Ops, mk(2, 0, a, b), mk(4, 2, a, b), mk(5, 4, genBridge0(r, 0, 0, 0)))
+	in.Ops = append(in.Ops, Op{K: "reorg", B: 4}, snapOp())
+	in.Ops = append(in.Ops, mk(4, 2, genBridge0(r, 0, 0, 0)), mk(6, 3, a, genBridge0(r, 0, 0, 0)), snapOp())
+	in.TwinOps = twinOf(in.Ops)
+	return in
+}
+
 // twinOf: same snapshots, but every block that is later reorged away is never processed, reorgs/restarts/faults dropped
 func twinOf(ops []Op) []Op {
 	// emit blocks incrementally while the surviving history only grows, else restart the twin from an empty DB ("reset")
@@ -583,6 +604,7 @@ func generate(prop string, f *hlib.Flags) []In {
 		case "c04":
 			if i == 0 {
 				ins = append(ins, genC04HaltNoDeposit(hlib.NewRng(f.Seed^0xc04a)))
+				ins = append(ins, genC04RepeatedSubtree(hlib.NewRng(f.Seed^0xc04b)))
 			}
 			ins = append(ins, genC04(r, 6, i%5 == 4))
 		case "c07":
